@@ -1,5 +1,14 @@
-(* Props/C17.v — property theorems only. *)
-From Verif Require Import Base.Str Pattern.Regex Pattern.Translate Pattern.GlobSpec Proofs.RegexProofs.
+(* Props/C17.v — property theorems only.
+   Full-strength target (DESIGN C17), kept visible:
+     C17_sound_complete : forall mode p, translate mode p = TOk txt bol eol (OOk r) ->
+        forall s, rx_matches (fold mode) {bol; eol; r} s <-> glob_spec (flags mode) p s = true
+     C17_error_iff_malformed : translate mode p = TErr _ <-> malformed p
+   The faithful model violates both (lone trailing backslash: C17_trailing_backslash_refuted; further
+   classes in known_findings.jsonl KF-C17-2..9), so the positive theorem is proved on a fragment and
+   named _partial; brackets, extended operators, case folding and Filenames are covered by the code
+   legs, the spec-vs-bash leg and the exhaustive search only. *)
+From Verif Require Import Base.Str Pattern.Regex Pattern.Translate Pattern.GlobSpec Pattern.Fragment
+  Proofs.RegexProofs Proofs.TranslateProofs.
 
 (* the executable matcher used by the regexp-meaning leg decides the denotation of the regexp AST,
    for every expression, every string and every folding *)
@@ -7,3 +16,43 @@ Theorem C17_matcher_decides_denotation :
   forall orbit s r, matchb orbit r s = true <-> matches orbit r s.
 Proof. exact matchb_correct. Qed.
 Print Assumptions C17_matcher_decides_denotation.
+
+(* both anchors (EntireString): the expression accepts exactly the language of its body *)
+Theorem C17_entire_string_is_body_language : forall orbit r s,
+  rx_matches orbit {| rx_bol := true; rx_eol := true; rx_body := r |} s <-> matches orbit r s.
+Proof. exact rx_anchored. Qed.
+Print Assumptions C17_entire_string_is_body_language.
+
+(* PARTIAL: sound and complete w.r.t. bash's rule for every "flat" pattern ( * ? literals, backslash
+   escapes; no NUL, no unescaped '[', no trailing backslash ), any length, all strings, in every mode with
+   EntireString and without Filenames / ExtendedOperators / NoGlobCase (Shortest, NoGlobStar,
+   GlobLeadingDot free).  Missing: bracket expressions, extended operators, folding, Filenames. *)
+Theorem C17_sound_complete_flat_partial : forall wc m p txt bol eol body,
+  m_entire m = true -> m_filenames m = false -> m_ext m = false -> m_nocase m = false ->
+  flat p = true -> translate m p = TOk txt bol eol body ->
+  exists r, body = OOk r /\ bol = true /\ eol = true /\
+            forall s, matches orbit_id r s <-> glob_spec wc f_plain p s = true.
+Proof. exact sound_complete_flat. Qed.
+Print Assumptions C17_sound_complete_flat_partial.
+
+(* PARTIAL (error clause): on that fragment Regexp never reports an error and never runs out of fuel *)
+Theorem C17_flat_never_errors_partial : forall m p,
+  m_entire m = true -> m_filenames m = false -> m_ext m = false -> flat p = true ->
+  exists txt body, translate m p = TOk txt true true body.
+Proof. exact flat_never_errors. Qed.
+Print Assumptions C17_flat_never_errors_partial.
+
+(* the hypotheses are satisfiable by a non-trivial pattern:  a*\?b?  *)
+Example C17_flat_nonvacuous :
+  flat [97; 42; 92; 63; 98; 63] = true /\
+  (exists txt, translate mode_es [97; 42; 92; 63; 98; 63] =
+     TOk txt true true (OOk (flat_re REps [97; 42; 92; 63; 98; 63]))) /\
+  glob_spec no_wide f_plain [97; 42; 92; 63; 98; 63] [97; 120; 121; 63; 98; 122] = true /\
+  glob_spec no_wide f_plain [97; 42; 92; 63; 98; 63] [97; 120; 98; 122] = false.
+Proof. split; [reflexivity|]. split; [eexists; vm_compute; reflexivity|]. split; vm_compute; reflexivity. Qed.
+
+(* REFUTED (known finding KF-C17-1): a lone trailing backslash is an error, bash's rule matches "\" *)
+Theorem C17_trailing_backslash_refuted :
+  exists p s, translate mode_es p = TErr EBackslash /\ glob_spec no_wide f_plain p s = true.
+Proof. exact trailing_backslash_refuted. Qed.
+Print Assumptions C17_trailing_backslash_refuted.
